@@ -163,7 +163,13 @@ def extract_reuse_info(text: str) -> ReuseInfo:
         for pattern in _COPYRIGHT_PATTERNS:
             match = pattern.search(line)
             if match is not None:
-                copyright_matches.add(match.groupdict()["copyright"].strip())
+                value = match.groupdict()["copyright"].strip()
+                # Like find_spdx_tag(), strip the closing part of an ASCII art
+                # frame: the inverse of what precedes the notice on its line.
+                suffix = line[: match.start("copyright")].strip()[::-1]
+                if suffix and value.endswith(suffix):
+                    value = value[: -len(suffix)].strip()
+                copyright_matches.add(value)
                 break
 
     return ReuseInfo(
